@@ -184,18 +184,20 @@ var nodePkg = reflect.TypeOf(ast.BasicLit{}).PkgPath()
 // ---- the reviewed exception lists (mirrors Props/C18.lean: specCfg) ---------------------------
 
 // Excluded fields: Node-typed but deliberately not children for a traversal.
-//   File.Imports      aliases of the ImportSpecs already reachable through Decls
-//   File.Comments     all comments of the file; the attached ones are reachable via Doc/Comment
-//   File.ShadowEntry  alias of the last Decl
-//   Package.GoFiles   go/ast trees (foreign node types)
+//
+//	File.Imports      aliases of the ImportSpecs already reachable through Decls
+//	File.Comments     all comments of the file; the attached ones are reachable via Doc/Comment
+//	File.ShadowEntry  alias of the last Decl
+//	Package.GoFiles   go/ast trees (foreign node types)
 var Excluded = map[string]bool{
 	"File.Imports": true, "File.Comments": true, "File.ShadowEntry": true, "Package.GoFiles": true,
 }
 
 // Guards: fields withdrawn when a flag of the node is set.
-//   FuncDecl.Shadow   the synthetic entry function of a script-style file: Name/Type (and
-//                     Doc/Recv) are not source constructs
-//   File.NoPkgDecl    the package name is implicit
+//
+//	FuncDecl.Shadow   the synthetic entry function of a script-style file: Name/Type (and
+//	                  Doc/Recv) are not source constructs
+//	File.NoPkgDecl    the package name is implicit
 var Guards = map[string]string{
 	"FuncDecl.Doc": "Shadow", "FuncDecl.Recv": "Shadow", "FuncDecl.Name": "Shadow", "FuncDecl.Type": "Shadow",
 	"File.Name": "NoPkgDecl",
@@ -227,7 +229,8 @@ func SpecChildren(n ast.Node) []Child {
 // ---- dump for the Lean driver --------------------------------------------------------------
 
 // Dumper assigns ids by node identity and serialises trees:
-//   node := "0" slot (kind|"-") | "N" slot kind id nflags (name bit)* nkids node*
+//
+//	node := "0" slot (kind|"-") | "N" slot kind id nflags (name bit)* nkids node*
 type Dumper struct {
 	ids  map[ast.Node]int
 	next int
